@@ -169,8 +169,8 @@ func (w *world) logf(f string, a ...any) {
 }
 
 func (w *world) onYield(point string, args ...any) {
-	if w.free.Load() || len(args) < 2 {
-		return
+	if w.free.Load() || len(args) < 2 || !strings.HasPrefix(point, "swamp.") {
+		return // gates of other packages (hydra.summon.* of C18) are not part of this model
 	}
 	nm, _ := args[0].(string)
 	if nm != w.swampName {
@@ -982,7 +982,8 @@ func ensureReading(i int, want bool, sw swamp.Swamp) string {
 		if !want && sw != nil {
 			sw.TreasureExists("~verif~") // the model says the swamp is not idle here: refresh lastInteractionTime
 		}
-		shield := reading && sw != nil
+		// (code that re-reads the clock under the lock may close on a fresh reading even if this one says "not idle")
+		shield := (reading || os.Getenv("VERIF_C16_FRESHCHECK") == "1") && sw != nil
 		if shield {
 			sw.BeginVigil()
 		}
